@@ -15,7 +15,8 @@ import (
 //   {valid / malformed / module / blocked recipient} x {0, 1, large amount} x
 //   {no payload, undecodable bytes, badly signed tx, tx failing at message 1, at message 2,
 //    out-of-gas loop, succeeding transfer, succeeding withdrawal, withdrawal then failing message}
-// on two base states (denom new / denom already registered; recipient account new / existing)
+// on three base states (denom new / denom registered / denom with bank metadata but no pair;
+// recipient account new / existing)
 // the deposit is first run with the fault plan in record mode, then once per recorded
 // bank / account keeper call x {error, panic}, each run on a fresh branch of the base state.
 // The no-fault runs are also replayed by the Coq model (except the out-of-gas shape: gas is
@@ -318,7 +319,7 @@ func (fx *c07Fx) judge(run *c07Run) {
 func genC07(seed uint64, tier string, outdir string) *Report {
 	rep := NewReport("C07", seed, tier)
 	rep.Rule = "a case is one execution of one deposit (shape x base state x fault point x fault kind) on a fresh branch; distinct by shape, base and fault; non-trivial = a fault was injected or the hook ran"
-	nBases := 2
+	nBases := 3
 	if tier == "thorough" {
 		nBases = 8
 	}
@@ -347,6 +348,12 @@ func genC07(seed uint64, tier string, outdir string) *Report {
 		depDenom := 1
 		if b%2 == 1 {
 			depDenom = 0
+		}
+		// bases 2, 5, ...: the deposited denom has bank metadata already but NO denom pair (bank
+		// genesis / upgrade): HasDenomMetaData answers true, the pair must still be registered
+		if b%3 == 2 {
+			depDenom = 1
+			SetL2DenomMeta(e, sc.L2Denoms[1], sc.L1Denoms[1])
 		}
 		// a recipient address that has no account yet (zero-amount path creates it)
 		fresh := sdk.AccAddress(detPriv(seed^0x5eed, 900+b).PubKey().Address()).String()
